@@ -30,6 +30,28 @@ ob("c07::is_valid_def", "C07", cls="modular", timeout=120, functions=["TwoFloat:
 ob("c07::try_from_tuple", "C07", cls="modular", timeout=120, functions=["TryFrom<(f64,f64)> for TwoFloat", "From<TwoFloat> for (f64,f64)", "From<&TwoFloat> for (f64,f64)"])
 ob("c07::try_from_array", "C07", cls="modular", timeout=120, functions=["TryFrom<[f64;2]> for TwoFloat", "From<TwoFloat> for [f64;2]", "From<&TwoFloat> for [f64;2]"])
 
+# ------------------------------------------------------------------ C02 (leaves; also carry C01, C03)
+def _nm(d):
+    return ("m%d" % -d) if d < 0 else ("p%d" % d)
+
+
+_FTS = ["twofloat::arithmetic::fast_two_sum"]
+ob("c02::fts_cases_cover", ["C02", "C01", "C03"], cls="lemma", timeout=120)
+ob("c02::add_cases_cover", ["C02", "C01", "C03"], cls="lemma", timeout=120)
+ob("c02::exact_cases_are_contract", ["C02", "C01", "C03"], tier="thorough", cls="lemma", timeout=1800)
+ob("c02::from_f64_exact", "C02", cls="leaf", timeout=120, functions=["TwoFloat::from_f64", "From<f64> for TwoFloat"])
+ob("c02::new_mul_hi", ["C02", "C04"], cls="leaf", timeout=300, functions=["TwoFloat::new_mul"], backend="cbmc+cvc5")
+ob("c02::new_mul_valid", ["C02", "C01", "C04"], tier="thorough", cls="leaf", timeout=9000, functions=["TwoFloat::new_mul"])
+ob("c02::fts_far", ["C02", "C01", "C03"], cls="leaf", timeout=300, functions=_FTS)
+ob("c02::fts_zero", ["C02", "C01", "C03"], cls="leaf", timeout=300, functions=_FTS)
+for _d in range(0, 57):
+    ob("c02::fts_gap_" + _nm(_d), ["C02", "C01", "C03"], tier="thorough", cls="leaf", timeout=2400, functions=_FTS, gap=_d, family="fts")
+for _f in ("new_add", "new_sub"):
+    for _s in ("far_p", "far_m", "zero"):
+        ob("c02::%s_%s" % (_f, _s), ["C02", "C01", "C03"], cls="leaf", timeout=600, functions=["TwoFloat::" + _f])
+    for _d in range(-56, 57):
+        ob("c02::%s_gap_%s" % (_f, _nm(_d)), ["C02", "C01", "C03"], tier="thorough", cls="leaf", timeout=4800, functions=["TwoFloat::" + _f], gap=_d, family=_f)
+
 # ------------------------------------------------------------------ C06
 _cmp = ["PartialOrd<TwoFloat> for TwoFloat", "PartialEq<TwoFloat> for TwoFloat"]
 ob("c06::cmp_tf_tf", "C06", timeout=240, functions=_cmp)
@@ -61,7 +83,16 @@ PROPERTY_META = {
 
 
 def select(prop, tier, seed=0):
-    rows = [o for o in ALL if prop in o["props"] and (tier == "thorough" or o["tier"] == "quick")]
-    # lemma rows shared with other properties are only run under their first property unless thorough
-    rows = [o for o in rows if o["props"][0] == prop or tier == "thorough" or o.get("shared_quick")]
+    """obligations run by `check <prop> --tier <tier>`: the rows owned by the property (first entry of
+    props).  Rows that merely serve the property are discharged by their owner's check and are listed
+    in the evidence under `rests_on`."""
+    rows = [o for o in ALL if o["props"][0] == prop and (tier == "thorough" or o["tier"] == "quick")]
     return rows
+
+
+def rests_on(prop):
+    out = {}
+    for o in ALL:
+        if prop in o["props"][1:]:
+            out.setdefault(o["props"][0], []).append(o["name"])
+    return out
